@@ -284,33 +284,45 @@ def factorInner (n : Nat) (Ap Ai : Array Nat) (Ax : Array α) (Li : Array Nat) (
 
 /-! ### `_solve` -/
 
+/-- innermost statement of `_lsolve`: `x[Li[j]] -= Lx[j] * xi` -/
+def lsolveEntry (Li : Array Nat) (Lx : Array α) (xi : α) (x : Array α) (j : Nat) : MErr (Array α) := do
+  let lij ← getE Li j "_lsolve: Li[j]"
+  let lxj ← getE Lx j "_lsolve: Lx[j]"
+  let cur ← getE x lij "_lsolve: x[Lij] (unchecked)"
+  setE x lij (cur - lxj * xi) "_lsolve: x[Lij] (unchecked)"
+
+/-- body of `for i in 0..x.len()` of `_lsolve`: column `i` of `L` is subtracted `x[i]` times -/
+def lsolveStep (Lp Li : Array Nat) (Lx : Array α) (x : Array α) (i : Nat) : MErr (Array α) := do
+  let xi ← getE x i "_lsolve: x[i]"
+  let f ← getE Lp i "_lsolve: Lp[i] (unchecked)"
+  let l ← getE Lp (i + 1) "_lsolve: Lp[i+1] (unchecked)"
+  if !(f ≤ l && l ≤ Lx.size && l ≤ Li.size) then throw (.panic "_lsolve: slice Lx[f..l]")
+  (List.range' f (l - f)).foldlM (lsolveEntry Li Lx xi) x
+
 /-- `_lsolve_unsafe`: solves `(L+I)x = b` in place, column by column -/
 def lsolve (Lp Li : Array Nat) (Lx : Array α) (x : Array α) : MErr (Array α) :=
-  (List.range x.size).foldlM (fun (x : Array α) i => do
-    let xi ← getE x i "_lsolve: x[i]"
-    let f ← getE Lp i "_lsolve: Lp[i] (unchecked)"
-    let l ← getE Lp (i + 1) "_lsolve: Lp[i+1] (unchecked)"
-    if !(f ≤ l && l ≤ Lx.size && l ≤ Li.size) then throw (.panic "_lsolve: slice Lx[f..l]")
-    (List.range' f (l - f)).foldlM (fun (x : Array α) j => do
-      let lij ← getE Li j "_lsolve: Li[j]"
-      let lxj ← getE Lx j "_lsolve: Lx[j]"
-      let cur ← getE x lij "_lsolve: x[Lij] (unchecked)"
-      setE x lij (cur - lxj * xi) "_lsolve: x[Lij] (unchecked)") x) x
+  (List.range x.size).foldlM (lsolveStep Lp Li Lx) x
+
+/-- innermost statement of `_dltsolve` / `_ltsolve`: `s += Lx[j] * x[Li[j]]` -/
+def dotEntry (Li : Array Nat) (Lx : Array α) (x : Array α) (s : α) (j : Nat) : MErr α := do
+  let lij ← getE Li j "_dltsolve: Li[j]"
+  let lxj ← getE Lx j "_dltsolve: Lx[j]"
+  let xv ← getE x lij "_dltsolve: x[Lij] (unchecked)"
+  pure (s + lxj * xv)
+
+/-- body of `for i in (0..x.len()).rev()` of `_dltsolve`: `x[i] = x[i]*Dinv[i] - Σ Lx[j]*x[Li[j]]` -/
+def dltsolveStep (Lp Li : Array Nat) (Lx Dinv : Array α) (x : Array α) (i : Nat) : MErr (Array α) := do
+  let f ← getE Lp i "_dltsolve: Lp[i] (unchecked)"
+  let l ← getE Lp (i + 1) "_dltsolve: Lp[i+1] (unchecked)"
+  if !(f ≤ l && l ≤ Lx.size && l ≤ Li.size) then throw (.panic "_dltsolve: slice Lx[f..l]")
+  let s ← (List.range' f (l - f)).foldlM (dotEntry Li Lx x) (0 : α)
+  let xi ← getE x i "_dltsolve: x[i]"
+  let di ← getE Dinv i "_dltsolve: Dinv[i] (unchecked)"
+  setE x i (xi * di - s) "_dltsolve: x[i]"
 
 /-- `_dltsolve_unsafe`: solves `D(L+I)'x = b` in place, last row first -/
 def dltsolve (Lp Li : Array Nat) (Lx Dinv : Array α) (x : Array α) : MErr (Array α) :=
-  (List.range x.size).reverse.foldlM (fun (x : Array α) i => do
-    let f ← getE Lp i "_dltsolve: Lp[i] (unchecked)"
-    let l ← getE Lp (i + 1) "_dltsolve: Lp[i+1] (unchecked)"
-    if !(f ≤ l && l ≤ Lx.size && l ≤ Li.size) then throw (.panic "_dltsolve: slice Lx[f..l]")
-    let s ← (List.range' f (l - f)).foldlM (fun (s : α) j => do
-      let lij ← getE Li j "_dltsolve: Li[j]"
-      let lxj ← getE Lx j "_dltsolve: Lx[j]"
-      let xv ← getE x lij "_dltsolve: x[Lij] (unchecked)"
-      pure (s + lxj * xv)) (0 : α)
-    let xi ← getE x i "_dltsolve: x[i]"
-    let di ← getE Dinv i "_dltsolve: Dinv[i] (unchecked)"
-    setE x i (xi * di - s) "_dltsolve: x[i]") x
+  (List.range x.size).reverse.foldlM (dltsolveStep Lp Li Lx Dinv) x
 
 /-- `_ltsolve_unsafe`: solves `(L+I)'x = b` in place -/
 def ltsolve (Lp Li : Array Nat) (Lx : Array α) (x : Array α) : MErr (Array α) :=
